@@ -99,8 +99,11 @@ func c15Decl() *decl.Decl {
 		{Field: "L", Short: "l", Long: "list", Type: decl.TStrings, Desc: "a list"},
 		{Field: "M", Short: "m", Long: "map", Type: decl.TMapSI, Desc: "a map"},
 		{Field: "N", Long: "names", Type: decl.TMapSS, Desc: "another map"},
+		{Field: "N2", Long: "numlike", Type: decl.TMapSS, Desc: "string keys that look like numbers"},
 		{Field: "K", Long: "keyed", Type: decl.TMapIS, Desc: "a map with int keys"},
 		{Field: "MB", Long: "switches", Type: decl.TMapSB, Desc: "a map of bools"},
+		{Field: "BK", Long: "boolkeys", Type: decl.TMapBS, Desc: "a map with bool keys"},
+		{Field: "HX", Long: "hexkeys", Type: decl.TMapIS, Base: "16", Desc: "int keys written in base 16"},
 		{Field: "P", Long: "port", Type: decl.TInt, Desc: "a number", Defaults: []string{"80"}},
 		{Field: "Q", Short: "q", Type: decl.TBool, Desc: "short only"},
 		{Field: "QQ", Short: "Q", Type: decl.TBool, Desc: "short only, other case"},
@@ -173,6 +176,12 @@ func c15Scenarios() []c15Scenario {
 				b.Vals[o].Set(reflect.ValueOf(map[int]string{20: "b", 3: "a", 100: "c"}))
 			case "MB":
 				b.Vals[o].Set(reflect.ValueOf(map[string]bool{"on": true, "off": false}))
+			case "BK":
+				b.Vals[o].Set(reflect.ValueOf(map[bool]string{true: "yes", false: "no"}))
+			case "HX":
+				b.Vals[o].Set(reflect.ValueOf(map[int]string{2: "a", 16: "b", 26: "c"}))
+			case "N2":
+				b.Vals[o].Set(reflect.ValueOf(map[string]string{"2": "a", "10": "b", "1a": "c", "01": "d", "1": "e"}))
 			}
 		}
 	}
@@ -336,18 +345,18 @@ func init() {
 		Body:       body,
 		DevBound: func(th bool) int {
 			if th {
-				return 6
+				return 4
 			}
-			return 4
+			return 3
 		},
 		Rule: "29 scenarios in 7 families (INI read with one option set from 2-3 sections incl. a case-variant section name, a map option in two sections, two faulty sections, two and three unknown sections, unconvertible values in two sections, empty unknown sections, int-keyed and bool-valued maps, as-defaults with mixed quoting, most followed by Write; help with pre-populated / command-line map options (string-, int-keyed and bool-valued maps); man page; " +
 			"INI write of 3-key maps under two IniOptions sets; completion of -, --, --p, in a command, of command names; ErrRequired with three missing options, ErrCommandRequired, ErrUnknownCommand; map values from the command line) x every iteration order at every map iteration of the library: " +
-			"the sources of /repo are type-checked at check time and every range over a map and every reflect MapKeys call is rewritten (go build -overlay) to ask a hook for the order; each position of each order is a deviation point (Lehmer code, 0 = canonical order) and the explorer enumerates every combination of <= 4 (quick) / <= 6 (thorough) deviations over the whole execution, which contains all n! orders of any single site with n <= 3 keys and all pairs of single displacements across sites; " +
+			"the sources of /repo are type-checked at check time and every range over a map and every reflect MapKeys call is rewritten (go build -overlay) to ask a hook for the order; each position of each order is a deviation point (Lehmer code, 0 = canonical order) and the explorer enumerates every combination of <= 3 (quick) / <= 4 (thorough) deviations over the whole execution, which contains all n! orders of any single site with n <= 3 keys and all pairs of single displacements across sites; " +
 			"oracle: every execution of a scenario observes byte-identical output, error text and values; plus 6 free-running repetitions per scenario with the runtime's own order (sampling, only a cross-check that the seam misses nothing); " +
 			"states = distinct (scenario, order vector) schedules, transitions = map-iteration decisions taken",
 		Assumptions:  []string{"nondeterminism other than map iteration order (time, environment) is pinned by the harness", "MapRange iterators and ranges with non-identifier keys would be left uninstrumented and are listed in bin/c15overlay/sites.json (none today)"},
 		RequiredHits: []string{"orders-enumerated", "non-identity-order", "native-order-repetitions"},
-		Bound:        [2]string{"<= 4 order deviations per execution", "<= 6 order deviations per execution"},
+		Bound:        [2]string{"<= 3 order deviations per execution", "<= 4 order deviations per execution"},
 		BudgetS:      [2]int{100, 900},
 		Extra: func(bool) map[string]interface{} {
 			b, err := os.ReadFile(explore.VerifDir + "/bin/c15overlay/sites.json")
